@@ -13,6 +13,8 @@ use super::Run;
 use crate::bind::{RunOpts, run_pipeline};
 use crate::pool::Pool;
 
+const WIDE_LENGTHS: [usize; 16] = [27, 28, 29, 41, 42, 43, 69, 70, 71, 79, 80, 81, 255, 256, 257, 1000];
+
 #[derive(Clone, Debug)]
 enum Op {
     Print(usize, Vec<Tok>),
@@ -185,6 +187,7 @@ impl Gen {
             }
             "using" => (self.formats.len() * self.vlists.len() * 3 * 2) as u64,
             "nested" => 3 * 4 * 3 * 3 * 2,
+            "wide" => (WIDE_LENGTHS.len() * 4 * 3) as u64,
             "uhist" => {
                 let e = (UEVENTS.len() * 2 * 3) as u64;
                 (1..=(if self.quick { 2u32 } else { 3u32 })).map(|d| e.pow(d)).sum()
@@ -325,6 +328,67 @@ impl Gen {
                     sigkey: format!("depth{}", depth),
                     lines,
                     ops,
+                    defs: String::new(),
+                    expect_err: None,
+                    undecided: None,
+                })
+            }
+            "wide" => {
+                // strings far wider than a zone (and than a screen line): the comma still pads to the next multiple of 14
+                let form = (idx % 4) as usize;
+                let rest = idx / 4;
+                let dev = (rest % 3) as usize;
+                let len = *WIDE_LENGTHS.get((rest / 3) as usize)?;
+                let w: Vec<u8> = (0..len).map(|i| b'a' + (i % 10) as u8).collect();
+                let mut lines = vec![format!("P$ = \"abcdefghij\": WHILE LEN(P$) < {}: P$ = P$ + P$: WEND: W$ = LEFT$(P$, {})", len, len)];
+                // the bytes the statements write, starting from column 0
+                let mut out: Vec<u8> = vec![];
+                let comma = |out: &mut Vec<u8>| {
+                    let n = 14 - out.len() % 14;
+                    out.extend(std::iter::repeat_n(b' ', n));
+                };
+                let h = head(dev);
+                let newline;
+                match form {
+                    0 => {
+                        lines.push(format!("{} W$, 1", h));
+                        out.extend(&w);
+                        comma(&mut out);
+                        out.extend(b" 1 ");
+                        newline = true;
+                    }
+                    1 => {
+                        lines.push(format!("{} W$;", h));
+                        lines.push(format!("{} , \"z\"", h));
+                        out.extend(&w);
+                        comma(&mut out);
+                        out.extend(b"z");
+                        newline = true;
+                    }
+                    2 => {
+                        lines.push(format!("{} 1, W$, 2;", h));
+                        out.extend(b" 1 ");
+                        comma(&mut out);
+                        out.extend(&w);
+                        comma(&mut out);
+                        out.extend(b" 2 ");
+                        newline = false;
+                    }
+                    _ => {
+                        lines.push(format!("{} W$; W$, \"e\",", h));
+                        out.extend(&w);
+                        out.extend(&w);
+                        comma(&mut out);
+                        out.extend(b"e");
+                        comma(&mut out);
+                        newline = false;
+                    }
+                }
+                Some(Case {
+                    label: format!("{}: a string of {} characters, form {}", DEVICES[dev], len, form),
+                    sigkey: format!("form{}", form),
+                    lines,
+                    ops: vec![Op::Raw(dev, out, newline)],
                     defs: String::new(),
                     expect_err: None,
                     undecided: None,
@@ -537,7 +601,7 @@ pub fn drive(tier: &str) -> i32 {
     let genr = Gen::new(quick);
     let mut cases = vec![];
     let mut plan = vec![];
-    for g in ["nested", "uhist", "single", "hist", "using"] {
+    for g in ["nested", "wide", "uhist", "single", "hist", "using"] {
         let t = genr.total(g);
         let chunk = if g == "using" { 400 } else { 200 };
         let mut lo = 0;
@@ -562,7 +626,7 @@ pub fn drive(tier: &str) -> i32 {
         run.capped = true;
     }
     let mut ev = Evidence::new("model_checking");
-    ev.set("rule", "single: every PRINT list of up to 3 (thorough 4) tokens over the value menu (numbers of every type and sign, strings incl. empty, of 13/14/15 characters and with embedded CR, LF, CR LF) and the two separators, no two values adjacent, on screen / LPT1 / file #1 starting at columns 0, 2, 13, 14, 15, 27. hist: the full tree of histories of depth <= 2 (thorough 3) over 32 statement forms x 3 devices. bfs: breadth-first search over the model's states (column residue mod 14 of each device), every (state, event) transition replayed on the implementation after the shortest history reaching the state. using: every format string up to length 3 (thorough 5) over {# . , \\ blank ! x} x value lists (1-3 values, format reuse) x trailing semicolon. uhist: the full tree of histories of depth <= 2 (thorough 3) over 5 PRINT USING statements (formats that are left in the middle, several values, literal tails) and 2 plain ones x trailing semicolon x 3 devices. nested: a PRINT / PRINT USING list on each device whose first, middle or last item calls a FUNCTION that itself PRINTs to each device (ending with nothing, semicolon, comma). After every case each device's hidden column is exposed by `, \"|\"`. Oracle: exact bytes of stdout, LPT1 and both files against the column model.");
+    ev.set("rule", "single: every PRINT list of up to 3 (thorough 4) tokens over the value menu (numbers of every type and sign, strings incl. empty, of 13/14/15 characters and with embedded CR, LF, CR LF) and the two separators, no two values adjacent, on screen / LPT1 / file #1 starting at columns 0, 2, 13, 14, 15, 27. hist: the full tree of histories of depth <= 2 (thorough 3) over 32 statement forms x 3 devices. bfs: breadth-first search over the model's states (column residue mod 14 of each device), every (state, event) transition replayed on the implementation after the shortest history reaching the state. using: every format string up to length 3 (thorough 5) over {# . , \\ blank ! x} x value lists (1-3 values, format reuse) x trailing semicolon. uhist: the full tree of histories of depth <= 2 (thorough 3) over 5 PRINT USING statements (formats that are left in the middle, several values, literal tails) and 2 plain ones x trailing semicolon x 3 devices. nested: a PRINT / PRINT USING list on each device whose first, middle or last item calls a FUNCTION that itself PRINTs to each device (ending with nothing, semicolon, comma). After every case each device's hidden column is exposed by `, \"|\"`. Oracle: exact bytes of stdout, LPT1 and both files against the column model. wide: strings of 27 .. 1000 characters (every length within one of 28, 42, 70, 80, 256) in four statement forms (string then comma, the comma in the next statement, between two numbers, twice and a trailing comma) on screen, LPT1 and a file: the comma pads to the next multiple of 14 whatever the width.");
     ev.set("exhaustive", !run.capped);
     ev.set("plan", json!(plan));
     ev.set("states", states as u64);
